@@ -14,19 +14,20 @@ Qed.
 Lemma no_writer_spec st : no_writer st = true -> writer st = None.
 Proof. unfold no_writer. destruct (writer st); [discriminate|reflexivity]. Qed.
 
-Lemma lock_ok_exec vr st k s rest st' : lock_ok st -> exec vr st k s rest = Some st' -> lock_ok st'.
+Lemma lock_ok_exec st k s rest st' : lock_ok st -> exec st k s rest = Some st' -> lock_ok st'.
 Proof.
   intros L Hx. unfold lock_ok in *. destruct s; simpl in Hx.
-  - inversion Hx; subst; simpl; assumption.
+  - destruct (lock_free st) eqn:F; [|discriminate]. apply lock_free_spec in F as [F1 F2].
+    destruct (has_ticket st u k); inversion Hx; subst; simpl; auto.
   - destruct (no_writer st) eqn:W; [|discriminate]. apply no_writer_spec in W.
     inversion Hx; subst; simpl. left; assumption.
   - inversion Hx; subst; simpl. destruct L as [L|L]; [left; assumption|right].
     destruct (holds_read rest); [assumption|]. rewrite L. reflexivity.
   - destruct (lock_free st) eqn:F; [|discriminate]. apply lock_free_spec in F as [F1 F2].
-    destruct vr; [|destruct (has_ticket st u k)]; inversion Hx; subst; simpl; auto.
-  - inversion Hx; subst; simpl. destruct vr; auto.
+    destruct (has_ticket st u k); inversion Hx; subst; simpl; auto.
+  - inversion Hx; subst; simpl. left; reflexivity.
   - destruct (lock_free st) eqn:F; [|discriminate]. apply lock_free_spec in F as [F1 F2].
-    destruct (match vr with Faithful => true | Repaired => has_ticket st u k end); inversion Hx; subst; simpl; auto.
+    destruct (has_ticket st u k); inversion Hx; subst; simpl; auto.
   - inversion Hx; subst; simpl. left; reflexivity.
 Qed.
 
